@@ -31,6 +31,19 @@ def real_long(L, text):
     return FortLineLength(L).long_lines(text)
 
 
+def fixed_mode():
+    """The deployed model: `processF` (FIXED mode: fixes/C18-compound-operator-split, -unbreakable-fallback,
+    -trailing-blank-after-ampersand) when the live class has the repaired `_break_point`, else the pinned `process`.
+    A partially patched tree matches neither model: the exact-output correspondence reports it."""
+    from psyclone.line_length import FortLineLength
+    return hasattr(FortLineLength, "_break_point")
+
+
+def live_type(l):
+    from psyclone.line_length import FortLineLength
+    return FortLineLength(132)._get_line_type(l)
+
+
 def enc(line):
     return "(" + " ".join(str(ord(c)) for c in line) + ")"
 
@@ -188,6 +201,22 @@ CORPUS = [
 ]
 
 
+def string_family():
+    """Systematic family: `!` and `&` inside character constants (both quote kinds, doubled quotes), the constant
+    crossing the limit at every offset class; plain, continued, and character-context continuation."""
+    out = []
+    for q in "'\"":
+        for inner in ["!", "&", " & ", "! & !", q + q, "&" + q + q + "!", "!$omp", " !& "]:
+            for pad in range(18, 46, 3):
+                line = "  x = " + q + "a" * pad + inner + " tail words here and more " + inner + q + " // y"
+                out.append((40, [line]))
+                out.append((40, [line + " &", "   & // " + q + inner + q]))
+                out.append((40, ["  s = " + q + "b" * pad + inner + " &",
+                                 "  &" + inner + " the rest of a long long long long string literal" + inner + q]))
+                out.append((40, ["call sub(" + q + "c" * pad + inner + q + ", " + q + inner + " d e f g h i j k l m n" + q + ")"]))
+    return out
+
+
 # ---- fparser as a second oracle (thorough tier) ----------------------------------------------------
 def fparser_statements(text):
     from fparser.common.readfortran import FortranStringReader, Line, Comment
@@ -241,12 +270,21 @@ REASON_TO_FINDING = {"inline-comment": "C18-trailing-comment-split",
 
 def classify_failure(L, lines, clause, active_ids, breakable=None):
     """The known-finding ids whose classifier accepts this failing input."""
+    fx = fixed_mode()
     if clause == "never-fails":
         if breakable is None:
-            breakable = driver("C18", [f"(breakable {L} " + " ".join(enc(l) for l in lines) + ")"])[0] == "1"
+            cmd = "breakableF" if fx else "breakable"
+            breakable = driver("C18", [f"({cmd} {L} " + " ".join(enc(l) for l in lines) + ")"])[0] == "1"
         return set() if breakable else {"C18-unbreakable-raises"} & active_ids
     if clause in ("same-program", "same-program-fparser"):
-        return {REASON_TO_FINDING[r] for _, r in spec.unsafe_reasons(L, lines)} & active_ids
+        ids = {REASON_TO_FINDING[r] for _, r in spec.unsafe_reasons(L, lines, fixed=fx, line_type=live_type)}
+        if fx:      # repaired classes are no longer excused
+            ids &= {"C18-trailing-comment-split", "C18-trailing-blank-after-ampersand"}
+            if "C18-trailing-blank-after-ampersand" in ids:
+                # only the proof's residual side condition (trailing white space WITHOUT the repaired `&` case
+                # never fails; keep it excusable only together with a trailing comment)
+                ids.discard("C18-trailing-blank-after-ampersand")
+        return ids & active_ids
     return set()
 
 
@@ -284,14 +322,21 @@ def run(chk):
                     e2e_corpus.append(p["scenario"])
                 else:
                     cases.append((p["limit"], p["lines"]))
+    fam = string_family()
+    chk.cov["string_family"] = len(fam)
+    cases += fam
     cases += [gen_case(r) for _ in range(n)]
     # every case at two more limits so that each text sees several windows
     req = []
+    fx = fixed_mode()
+    chk.cov["mode"] = ("FIXED (processF: the three C18 patches are present in the tree)" if fx else
+                       "PINNED (process: the tree has no FortLineLength._break_point)")
+    sfx = "F" if fx else ""
     for L, lines in cases:
-        req.append(f"(proc {L} " + " ".join(enc(l) for l in lines) + ")")
+        req.append(f"(proc{sfx} {L} " + " ".join(enc(l) for l in lines) + ")")
         req.append("(logical " + " ".join(enc(l) for l in lines) + ")")
-        req.append(f"(safe {L} " + " ".join(enc(l) for l in lines) + ")")
-        req.append(f"(breakable {L} " + " ".join(enc(l) for l in lines) + ")")
+        req.append(f"(safe{sfx} {L} " + " ".join(enc(l) for l in lines) + ")")
+        req.append(f"(breakable{sfx} {L} " + " ".join(enc(l) for l in lines) + ")")
     model = driver("C18", req)
     dist = {"ok": 0, "err": 0, "long": 0, "retry_lstrip_approx": 0, "types": {}, "fail_classes": {}, "fparser_checked": 0}
     out_req, out_idx = [], []
@@ -323,7 +368,7 @@ def run(chk):
                         dist["retry_lstrip_approx"] += 1
         if spec.show_items(spec.logical(lines)) != mlog:
             raise common.Infra(f"c18_spec.logical differs from Lean C18.logical on {lines!r}: {mlog}")
-        if (msafe == "1") != (not spec.unsafe_reasons(L, lines)):
+        if (msafe == "1") != (not spec.unsafe_reasons(L, lines, fixed=fx, line_type=live_type)):
             raise common.Infra(f"c18_spec.unsafe_reasons differs from Lean C18.SafeFile on {L} {lines!r}: {msafe}")
         dist["safe_file"] = dist.get("safe_file", 0) + (msafe == "1")
         dist["breakable"] = dist.get("breakable", 0) + (mbrk == "1")
@@ -332,7 +377,7 @@ def run(chk):
             out_idx.append(idx)
         chk.case({"limit": L, "lines": lines}, nontrivial=nontriv, agreed=agreed)
         if not agreed:
-            chk.correspondence_broken("FortLineLength.process differs from C18.process", {"limit": L, "lines": lines}, mo, impl)
+            chk.correspondence_broken("FortLineLength.process differs from C18.process" + sfx, {"limit": L, "lines": lines}, mo, impl)
         for clause, detail in fails:
             ids = classify_failure(L, lines, clause, active, mbrk == "1") if agreed else set()
             if ids:
@@ -382,6 +427,12 @@ def run(chk):
         _, fails = evaluate(w["limit"], w["lines"])
         if any(e["id"] in classify_failure(w["limit"], w["lines"], c, {e["id"]}) for c, _ in fails):
             chk.known(e["what"])
+        elif fails and fx:
+            # a witness of a repaired class that still fails on a tree that claims to be repaired
+            for c, d in fails:
+                if not classify_failure(w["limit"], w["lines"], c, active):
+                    chk.violation({"kind": "failing-input", "limit": w["limit"], "lines": w["lines"], "clause": c,
+                                   "observed": d, "expected": "repaired behaviour (fixed mode)", "model_agrees": None})
 
 
 def replay(payload):
